@@ -168,7 +168,11 @@ macro_rules! c16_parse {
             match (&ra, &rb) {
                 (Ok(x), Ok(y)) => { let c: $B = (*x).as_(); assert!(deq(&c.dg(), &y.dg()), "same value in both configurations"); }
                 (Ok(_), Err(_)) => assert!(false, "accepted by the narrow / first configuration only"),
-                (Err(_), Ok(_)) => assert!(!SAME, "equal width: accepted by the second configuration only"),
+                (Err(_), Ok(y)) => {
+                    assert!(!SAME, "equal width: accepted by the second configuration only");
+                    // narrow / wide: the narrow type may only reject a numeral the wide type accepts if the value does not fit it
+                    assert!(!fits_in(&y.dg(), <$B as BN<$BD, $BN>>::SIGNED, <$AD>::BITS * $AN, <$A as BN<$AD, $AN>>::SIGNED), "rejected by the narrow type although the value fits");
+                }
                 (Err(e), Err(f)) => assert!(!SAME || e.kind() == f.kind(), "equal width: same error kind"),
             }
             $crate::reach!(ra.is_ok() && len == $L && buf[0] == b'0', "zero-padded numeral accepted");
